@@ -30,15 +30,27 @@ type proc struct {
 	hasI   bool
 }
 
+// tailBuffer keeps the beginning (where a crash names its cause) and the end of a worker's stderr.
 type tailBuffer struct {
-	mu  sync.Mutex
-	buf []byte
+	mu   sync.Mutex
+	head []byte
+	buf  []byte
 }
 
 func (t *tailBuffer) Write(p []byte) (int, error) {
 	t.mu.Lock()
 	defer t.mu.Unlock()
-	t.buf = append(t.buf, p...)
+	if room := 1<<16 - len(t.head); room > 0 {
+		n := len(p)
+		if n > room {
+			n = room
+		}
+		t.head = append(t.head, p[:n]...)
+		p2 := p[n:]
+		t.buf = append(t.buf, p2...)
+	} else {
+		t.buf = append(t.buf, p...)
+	}
 	if len(t.buf) > 1<<18 {
 		t.buf = t.buf[len(t.buf)-(1<<17):]
 	}
@@ -48,7 +60,7 @@ func (t *tailBuffer) Write(p []byte) (int, error) {
 func (t *tailBuffer) String() string {
 	t.mu.Lock()
 	defer t.mu.Unlock()
-	return string(t.buf)
+	return string(t.head) + string(t.buf)
 }
 
 type Supervisor struct {
@@ -161,7 +173,12 @@ var (
 )
 
 // crashClass extracts a stable description of a worker crash from its stderr.
-func crashClass(stderr string) (string, string) {
+func crashClass(stderr string) (cls string, det string) {
+	if dir := os.Getenv("VERIF_DEBUG_CRASH"); dir != "" {
+		defer func() {
+			os.WriteFile(filepath.Join(dir, fmt.Sprintf("crash-%d-%d.txt", os.Getpid(), time.Now().UnixNano())), []byte(cls+"\n"+stderr), 0o644)
+		}()
+	}
 	lines := strings.Split(stderr, "\n")
 	first := ""
 	idx := -1
